@@ -1,5 +1,7 @@
 import UralModel.Lemmas.IsUrl
 import UralModel.Lemmas.UrlsFromText
+import UralModel.Lemmas.ReExtra
+import UralModel.Model.LinksConcrete
 /-!
 # C16 — is_url options are monotone; urls_from_text yields genuine URLs of the text
 
@@ -12,11 +14,12 @@ The theorems depend on the generated terms only through the *table obligations* 
 section (each re-checked by `decide` after every regeneration).
 -/
 namespace Ural.Props.C16
-open Ural.Py Ural.Py.Re Ural.Gen.Patterns Ural.IsUrl Ural.UrlsFromText
+open Ural.Py Ural.Py.Re Ural.Py.Re.Extra Ural.Gen.Patterns Ural.IsUrl Ural.UrlsFromText
 
 /-! ## table obligations on the regenerated patterns -/
 
-/-- the protocol part `[a-zA-Z]{0,64}:?//`, read off `URL_RE = ^(?:PROTOCOL)?…$` -/
+/-- the protocol part `(?:[a-zA-Z]{1,64}:)?//` (compiled `re.I`), read off
+`URL_RE = ^(?:PROTOCOL)?…$`.  Note that the bare `//` is a word of it. -/
 def protoRe : Re :=
   match spine URL_RE with
   | _ :: .rep p _ _ _ :: _ => p
@@ -27,6 +30,24 @@ def bodyL : List Re := (spine URL_RE).drop 2
 
 /-- the same for `RELAXED_URL_RE` -/
 def relaxedBodyL : List Re := (spine RELAXED_URL_RE).drop 2
+
+/-- the class of the scheme letters inside `protoRe` -/
+def protoLetters : CharClass := clsOf (repBody (seqL (repBody (seqL protoRe))))
+
+/-- the code points `[a-zA-Z]` stands for under `re.IGNORECASE | re.UNICODE`: the ASCII
+letters and the four characters case folding maps onto ASCII letters — U+0130 `İ`, U+0131 `ı`
+(fold to `i`), U+017F `ſ` (folds to `s`), U+212A `K` (folds to `k`) -/
+def schemeLetterCodes : List Nat :=
+  (List.range 26).map (· + 65) ++ (List.range 26).map (· + 97) ++ [0x130, 0x131, 0x17F, 0x212A]
+
+/-- a scheme letter of the in-text / `is_url` patterns: ASCII letter, or one of `İ ı ſ K` -/
+def isSchemeLetterI (c : Char) : Bool := schemeLetterCodes.contains c.toNat
+
+/-- the protocol part IS `(?:[L]{1,64}:)?//` with `L` inside the scheme letters above -/
+theorem proto_shape :
+    protoRe = .seq (opt (.seq (.rep (.cls protoLetters) 1 (some 64) true) (.cls (CharClass.single ':'))))
+      (.seq (.cls (CharClass.single '/')) (.cls (CharClass.single '/'))) ∧
+    protoLetters.within schemeLetterCodes = true := by decide
 
 /-- `URL_RE` is `^ (PROTOCOL)? BODY` -/
 theorem shape_url : spine URL_RE = .bos :: opt protoRe :: bodyL ∧
@@ -213,6 +234,63 @@ theorem isurl_total (env : Env) (hsplit : ∀ s e, env.hostname s = .error e →
               · exact ⟨_, rfl⟩
         · exact ⟨_, rfl⟩
 
+/-! ### the parser instantiated
+
+`Env.hostname` stands for `safe_urlsplit(string).hostname` and carries ONE exception channel,
+while in is_url.py only `safe_urlsplit(string)` sits inside the `try … except ValueError`
+(`.hostname`, `has_valid_tld(parsed)` — which calls `safe_urlsplit` again, on the
+`SplitResult`, a no-op — and `is_special_host` are outside it).  The model therefore treats a
+`ValueError` from any of these as caught.  This is harmless for CPython: `SplitResult.hostname`
+never raises (only `.port` does).  Likewise `Env.validTld : Str → Bool` is a total function:
+`is_valid_tld` is assumed to raise nothing (its one fallible step, the idna codec, is wrapped
+in `try … except UnicodeError` by `attempt_to_decode_idna`).  Both are named in `ASSUMPTIONS`.
+With the parser model of `Model/LinksConcrete.lean` put in (`safeHostname`: `PROTOCOL_RE.match`
+? string : `"http://" + string`, `Py.urlsplit`, `Py.hostname`) the hypothesis of `isurl_total`
+is discharged and `isurl_tld_sound` speaks of that concrete hostname: -/
+
+/-- **is_url never raises**, the parser being the model of `safe_urlsplit(…).hostname`: no
+hypothesis left (all strings, all 16 option settings, every TLD table) -/
+theorem isurl_total_concrete (W : Ural.Html.World) (s : Str) (o : Opts) :
+    ∃ b, is_url (Ural.Html.isUrlEnv W) s o = .ok b := by
+  refine isurl_total (Ural.Html.isUrlEnv W) ?_ s o
+  intro s e he
+  have he' : Ural.Html.safeHostname s = .error e := he
+  unfold Ural.Html.safeHostname at he'
+  generalize (if pyMatch PROTOCOL_RE s = true then s else "http://".toList ++ s) = url at he'
+  cases hq : Py.urlsplit url [] with
+  | none => simp only [hq, Except.error.injEq] at he'; exact he'.symm
+  | some r => simp only [hq] at he'; cases he'
+
+/-- **tld_aware, with the concrete parser**: when `is_url(…, tld_aware=True)` answers `True`,
+the parser model finds a non-empty hostname in the stripped string (after `http://` was put in
+front of a string without protocol) and either `SPECIAL_HOSTS_RE` matches it or its last label
+is a known TLD -/
+theorem isurl_tld_sound_concrete (W : Ural.Html.World) (s : Str) (o : Opts) (ht : o.tld_aware = true)
+    (h : is_url (Ural.Html.isUrlEnv W) s o = .ok true) :
+    ∃ host, Ural.Html.safeHostname (strip s) = .ok (some host) ∧ host ≠ [] ∧
+      (pyMatch SPECIAL_HOSTS_RE host = true ∨ W.validTld (lastLabel host) = true) := by
+  obtain ⟨host, h1, h2, h3⟩ := isurl_tld_sound (Ural.Html.isUrlEnv W) s o ht h
+  have e1 : (Ural.Html.isUrlEnv W).hostname = Ural.Html.safeHostname := rfl
+  have e2 : (Ural.Html.isUrlEnv W).validTld = W.validTld := rfl
+  rw [e1] at h1
+  rw [e2] at h3
+  exact ⟨host, h1, h2, h3⟩
+
+/-- a world for the examples: the idna codec fails on every label, `com` is the only TLD -/
+/- non-vacuity (the kernel runs the regenerated pattern, the parser model and the accessor):
+`http://www.A.com:80/x` is accepted with `com` a TLD, its hostname is `www.a.com`;
+`http://a.zz` is refused; `http://127.0.0.1:8000` is accepted as a special host -/
+def exampleWorld : Ural.Html.World := ⟨id, fun l => l == "com".toList⟩
+
+example :
+    (is_url (Ural.Html.isUrlEnv exampleWorld) " http://www.A.com:80/x".toList { tld_aware := true }).toOption
+      = some true ∧
+    (Ural.Html.safeHostname "http://www.A.com:80/x".toList).toOption = some (some "www.a.com".toList) ∧
+    (is_url (Ural.Html.isUrlEnv exampleWorld) "http://a.zz".toList { tld_aware := true }).toOption = some false ∧
+    (is_url (Ural.Html.isUrlEnv exampleWorld) "http://127.0.0.1:8000".toList { tld_aware := true }).toOption
+      = some true := by
+  decide +kernel
+
 /-- non-vacuity of the monotonicity statements: `http://a.com/x y` is accepted only with
 spaces allowed, `a.com` only without mandatory protocol, `ftp://a.com` only without the
 http restriction -/
@@ -286,7 +364,46 @@ theorem yield_is_url (text : Str) (ys : List Str) (h : urls_from_text text = .ok
   simp only [isUrlPB, Bool.and_eq_true, Bool.not_eq_true'] at this
   simp [pattern, this.1, this.2]
 
-/-- **every yield carries a protocol**: it starts with a word of `[a-zA-Z]{0,64}:?//` -/
+theorem mem_single {c d : Char} (h : (CharClass.single c).mem d = true) : d = c := by
+  simp only [CharClass.single, CharClass.mem, Bool.false_bne] at h
+  rw [CharClass.inRanges_iff] at h
+  obtain ⟨r, hr, h1, h2⟩ := h
+  simp only [List.mem_singleton] at hr
+  subst hr
+  apply Char.ext
+  apply UInt32.toNat_inj.mp
+  exact Nat.le_antisymm h2 h1
+
+/-- **the words of the protocol part, explicitly**: `//` alone, or 1 to 64 scheme letters
+followed by `://` -/
+theorem lang_proto {p : Str} (h : Lang protoRe p) :
+    p = "//".toList ∨
+    ∃ w, p = w ++ "://".toList ∧ 1 ≤ w.length ∧ w.length ≤ 64 ∧ ∀ c ∈ w, isSchemeLetterI c = true := by
+  unfold Lang at h
+  rw [proto_shape.1] at h
+  obtain ⟨m, h1, h2⟩ := match_seq_iff.mp h
+  obtain ⟨m2, h3, h4⟩ := match_seq_iff.mp h2
+  obtain ⟨c1, rfl, hc1⟩ := match_cls_iff.mp h3
+  obtain ⟨c2, rfl, hc2⟩ := match_cls_iff.mp h4
+  have e1 := mem_single hc1
+  have e2 := mem_single hc2
+  subst e1 e2
+  rcases match_opt_iff.mp h1 with rfl | h5
+  · exact Or.inl rfl
+  · right
+    obtain ⟨m3, h6, h7⟩ := match_seq_iff.mp h5
+    obtain ⟨c3, rfl, hc3⟩ := match_cls_iff.mp h7
+    have e3 := mem_single hc3
+    subst e3
+    obtain ⟨w, rfl, hw, hlo, hhi⟩ := match_rep_cls_iff.mp h6
+    refine ⟨w, rfl, hlo, hhi 64 rfl, ?_⟩
+    intro c hc
+    have := within_sound proto_shape.2 (hw c hc)
+    simpa [isSchemeLetterI] using this
+
+/-- **every yield carries a protocol** (abstract form): it starts with a word of the protocol
+part `(?:[a-zA-Z]{1,64}:)?//` of the patterns; what these words are is `lang_proto`, and the
+explicit statement is `yield_has_scheme_or_relative` -/
 theorem yield_has_protocol (text : Str) (ys : List Str) (h : urls_from_text text = .ok ys) :
     ∀ y ∈ ys, ∃ p b, y = p ++ b ∧ Lang protoRe p := by
   obtain ⟨ys', h', _, hg⟩ := urls_from_text_spec pattern_facts text
@@ -296,6 +413,29 @@ theorem yield_has_protocol (text : Str) (ys : List Str) (h : urls_from_text text
   obtain ⟨_, hs, hu⟩ := hg y hy
   simp only [isUrlPB, hs, Bool.and_eq_true] at hu
   exact prefix_of_spine shape_url_with_protocol.1 in_text_anchorFree.2 (pyMatch_sound hu.2)
+
+/-- **every yield carries a protocol, explicitly**: every URL yielded by `urls_from_text`
+either is scheme-relative — it starts with `//` (the "protocol" of ural's patterns includes the
+bare `//`: `urls_from_text("x //a.com y")` yields `//a.com`) — or starts with a scheme of 1 to
+64 letters followed by `://`, a letter being an ASCII letter or, because the patterns are
+compiled with `re.I`, one of `İ ı ſ K` (U+0130, U+0131, U+017F, U+212A). -/
+theorem yield_has_scheme_or_relative (text : Str) (ys : List Str) (h : urls_from_text text = .ok ys) :
+    ∀ y ∈ ys,
+      (∃ b, y = "//".toList ++ b) ∨
+      (∃ w b, y = w ++ "://".toList ++ b ∧ 1 ≤ w.length ∧ w.length ≤ 64 ∧
+        ∀ c ∈ w, isSchemeLetterI c = true) := by
+  intro y hy
+  obtain ⟨p, b, rfl, hp⟩ := yield_has_protocol text ys h y hy
+  rcases lang_proto hp with rfl | ⟨w, rfl, h1, h2, h3⟩
+  · exact Or.inl ⟨b, rfl⟩
+  · exact Or.inr ⟨w, b, rfl, h1, h2, h3⟩
+
+/-- both alternatives occur, and the non-ASCII scheme letters too (as on the real code) -/
+example :
+    (urls_from_text "x //a.com y".toList).toOption = some ["//a.com".toList] ∧
+    (urls_from_text "x \u017fttp://a.com y".toList).toOption = some ["\u017fttp://a.com".toList] ∧
+    isSchemeLetterI '\u017f' = true ∧ isSchemeLetterI 'z' = true ∧ isSchemeLetterI '1' = false := by
+  decide
 
 /-- non-vacuity: a text with punctuation after a url, a complete markdown link whose first half
 is a url, a truncated one, a non-url half, and a TLD made of an ellipsis that trimming would
